@@ -91,3 +91,19 @@ claim("C10", "mc-shape", "exploration",
       "exhaustive single-operator/chain model enumeration: inferred shapes and constants vs execution on every instantiation",
       "189 catalogue entries (every operator with shape inference over its attribute grid, plus nine families of shape-arithmetic chains) x every fixed/symbolic mask of the input dims x value inputs as initializer or graph input x int/float constants; each variant is loaded (optimisation off), inferred with the real infer_shapes on the real graph, executed on every concrete instantiation, and every inferred rank, fixed dim, symbolic dim expression and constant value is compared with the produced value. Known findings listed in known_findings.json.",
       "Symbolic dims are read back from their printed form (all readings considered); sizes <= 3; DFT/STFT inert (fft feature off).")
+claim("C15", "mc-ops", "exploration",
+      "exhaustive single-operator model enumeration (attribute grid x shape grid x fills) against a hand-written ONNX reference",
+      "116 claimed operators (listed in the evidence); every case is a single-operator ONNX model loaded with optimisation off and run through Model::run; per operator the complete product of attribute grid, broadcastable shape pairs (ranks 0-3 over {1,2,3}; thorough adds 5, rank 4 and long inner extents), element types and two fills; integer and exact-float cases are compared for equality with a naive f64/i64 reference written from the ONNX specification, transcendental/normalisation/interpolation ops with a documented tolerance. Known findings listed in known_findings.json.",
+      "The reference is the harness author's reading of the ONNX specification (the onnx Python package is not available); spec-ambiguous regions are excluded from the claim and listed in the evidence; sequence, attention, RNN and optimizer-only operators are outside the catalogue.")
+claim("C12", "mc-ops", "exploration",
+      "same exhaustive operator-case enumeration; declared output-type rule vs dtype of every produced value",
+      "For every case of the C15 catalogue plus further operators (127 in total) the operator's output_types() rule is resolved against the actual input dtypes and compared with the dtype (and tensor-vs-sequence kind) of each value produced by a successful run; graph-level infer_shapes type labels are checked too.",
+      "Operators are reached through the hook re-exports (Model::verif_graph).")
+claim("C13", "mc-ops", "exploration",
+      "same exhaustive operator-case enumeration; in-place/commuted execution vs normal execution, bit-exact",
+      "For every catalogue operator that reports in-place capability (56) and every case on which the normal run succeeds, the operator is invoked exactly as Graph::run_plan does (InPlaceInputs + None placeholder) with the owned operand contiguous, non-contiguous, with spare capacity, with room to grow, and in every operand position for commutative operators; outputs must be bit-identical in shape, dtype and data.",
+      "Direct operator invocation through hook re-exports.")
+claim("C14", "mc-ops", "exploration",
+      "same exhaustive operator-case enumeration; layout variants of every input vs contiguous run, bit-exact",
+      "Every catalogue case (125 operators) is re-run with each input as a permuted view, a stepped slice of a sentinel-padded buffer, a stride-0 broadcast view along every axis it is constant on, and all inputs non-contiguous at once; outputs must be bit-identical to the contiguous run.",
+      "Negative strides do not exist in rten-tensor; TransformInputs wrappers are covered through C01.")
